@@ -1,6 +1,6 @@
 // C07 driver: inclusion on the two BDD encodings.
 // case:   incl <T A> <T B>
-// output: V td_rec_nosim td_rec_opt_nosim td_rec_sim td_rec_opt_sim bu_up_nosim bu_down_rec_sim  F <outcomes of the flag sweep: td then bu, 'ok' | 'ni' | 'bad:<word>:<what>'>
+// output: V td_rec_nosim td_rec_opt_nosim td_rec_sim td_rec_opt_sim bu_up_nosim bu_down_rec_sim bu_up_sim(3 characters: A<=B, A<=A after b = a, B<=A after a = B)  F <outcomes of the flag sweep: td then bu, 'ok' | 'ni' | 'bad:<word>:<what>'>
 //   the simulation for the top-down selections is obtained as the bottom-up class does it itself: sanitize, UnionDisjointStates,
 //   ComputeSimulation(TA_DOWNWARD, n), GetTopDownAut of both operands.
 #include "bdd_common.hh"
@@ -65,13 +65,28 @@ int main() {
 				case 2: return verdict([&]() { Prepared p = prepare(Abu, Bbu); IP ip = mkParam(2 | 8 | 16); ip.SetSimulation(&p.sim); return TD::CheckInclusion(p.s, p.b, ip); });
 				case 3: return verdict([&]() { Prepared p = prepare(Abu, Bbu); IP ip = mkParam(2 | 8 | 16 | 4); ip.SetSimulation(&p.sim); return TD::CheckInclusion(p.s, p.b, ip); });
 				case 4: return verdict([&]() { return BU::CheckInclusion(Abu, Bbu, mkParam(0)); });
-				default: return verdict([&]() { return BU::CheckInclusion(Abu, Bbu, mkParam(2 | 8 | 16)); });
+				case 5: return verdict([&]() { return BU::CheckInclusion(Abu, Bbu, mkParam(2 | 8 | 16)); });
+				default: {
+					// bottom-up, upward, "with simulation": the library runs on the caller's own objects (prepared by the caller, as for every selection with
+					// simulation); the generic upward checker does not read the relation. History on the SAME objects: A <= B, then b = a (copy assignment)
+					// and A <= A, then a = (saved B) and B <= A.   three characters
+					std::string out;
+					BU s = Abu, b = Bbu; VATA::AutBase::SanitizeAutsForInclusion(s, b);
+					VATA::AutBase::StateDiscontBinaryRelation rel; IP ip = mkParam(16); ip.SetSimulation(&rel);
+					BU savedB = b;
+					out += verdict([&]() { return BU::CheckInclusion(s, b, ip); });
+					b = s;
+					out += verdict([&]() { return BU::CheckInclusion(s, b, ip); });
+					s = savedB;
+					out += verdict([&]() { return BU::CheckInclusion(s, b, ip); });
+					return out;
+				}
 				}
 			};
 			// the selections run in a forked child under a time limit: one that exceeds it is inconclusive ("T"), never a violation
-			std::string all = forked([&]() { std::ostringstream o; for (int k = 0; k < 6; ++k) o << ' ' << sel(k); return o.str(); }, LIMIT_MS);
+			std::string all = forked([&]() { std::ostringstream o; for (int k = 0; k < 7; ++k) o << ' ' << sel(k); return o.str(); }, LIMIT_MS);
 			if (all == "@TIMEOUT" || all == "@CRASH" || all == "@EXC") {
-				for (int k = 0; k < 6; ++k) {
+				for (int k = 0; k < 7; ++k) {
 					std::string r = forked([&]() { return sel(k); }, LIMIT_MS);
 					os << ' ' << (r == "@TIMEOUT" ? "T" : r == "@CRASH" ? "Ecrash" : r == "@EXC" ? "Enonstd" : r);
 				}
